@@ -773,7 +773,7 @@ MANIFEST = {
                   'and never collide, pruning removes exactly the unreachable objects, delete_object leaves no reference to the deleted '
                   'object in the trailer or in anything reachable (after four repairs); the model is tied to the implementation by '
                   'random programs compared after every step, and the invariants (counts, contents, resources, frames) are evaluated '
-                  'directly on the implementation after every step.',
+                  'directly on the implementation after every step. The tree-level Count theorem and the Count invariant over whole programs also hold on the wider domain page_doc_ref (Counts behind references, pages behind reference objects): C11_delete_pages_tree_indirect, C11_count_invariant_ref.',
     'level_note': 'Trusted: Coq kernel; hand-written model Model/Edit.v tied by correspondence (observable: returned values and the '
                   'canonical dump of objects, trailer, max_id after every call); flate2 as an oracle whose answers come from the case; '
                   'extraction/OCaml driver; Rust harness. Seven defects repaired in /repo (four in delete_object, inherited resources shadowed by '
